@@ -269,7 +269,7 @@ def step (st : St) (op impl : String) : St × StepOut :=
             | none => base
           | _ => base
       -- oracle: generated decoders never panic; what `serialize` produced decodes to the original
-      let o1 := if impl == "panic" then ["decoder-total"] else []
+      let o1 := if impl == "panic" then ["decoder-panicked"] else []
       let o2 := match st.lastSer with
         | some (ser, t, vals) =>
           if ser == s!"{kind} {tag} {h}" then
